@@ -103,39 +103,11 @@ def correspondence(rep, ctx):
         idxs = [view.index[rd.utils.parse_nuclide_str(n)] for n in list(cx) + list(cy)]
         t, tu = gen.time_for(idxs)
         a = r.choice([2.0, 0.5, 3.7e10, 1e-6, r.uniform(0.1, 10)])
-        X, Y = rd.Inventory(dict(cx), ux), rd.Inventory(dict(cy), uy)
-        lhs = (X * a + Y).decay(t, tu).numbers()
-        rhs = (X.decay(t, tu) * a + Y.decay(t, tu)).numbers()
-        tot = a_tot = F(a) * sum(abs(F(v)) for v in X.contents.values()) + sum(abs(F(v)) for v in Y.contents.values())
-        desc = f"a={a!r}, X=Inventory({cx!r},{ux!r}), Y=Inventory({cy!r},{uy!r}), t={t!r} {tu}"
-        rep.case(("linear", desc), sample={"law": "linearity", "a": a, "X": cx, "Y": cy, "t": t, "tu": tu} if j % 41 == 0 else None)
-        gen._count("linearity")
-        if list(lhs) != list(rhs):
-            fail("linearity", desc, "nuclide sets differ")
-        else:
-            for nm in lhs:
-                if abs(F(lhs[nm]) - F(rhs[nm])) > 4 * TOL * tot + abs(F(lhs[nm])) / 2**50:
-                    fail("linearity", desc, f"{nm}: {lhs[nm]!r} vs {rhs[nm]!r}")
-                    break
-        # companions: X's nuclides that Y cannot reach
-        xd = view.descendants([view.index[n] for n in X.contents])
-        yd = view.descendants([view.index[n] for n in Y.contents])
-        alone = X.decay(t, tu).numbers()
-        mixed = (X + Y).decay(t, tu).numbers()
-        xtot = sum(abs(F(v)) for v in X.contents.values())
-        for g in xd - yd:
-            nm = view.names[g]
-            if abs(F(alone[nm]) - F(mixed[nm])) > 2 * TOL * xtot:
-                fail("companions", desc, f"{nm}: alone {alone[nm]!r}, in mixture {mixed[nm]!r}")
-                break
-        gen._count("companions")
-        z = X.decay(0.0, tu).numbers()
-        for nm, v in X.contents.items():
-            if abs(F(z[nm]) - F(v)) > TOL * xtot:
-                fail("zero-time", desc, f"{nm}: {z[nm]!r} vs {v!r}")
-                break
-        if any(F(v) != 0 and abs(F(v)) > TOL * xtot for nm, v in z.items() if nm not in X.contents):
-            fail("zero-time", desc, "progeny appear at t = 0")
+        try:
+            _c07_laws(rd, rep, gen, view, r, fail, cx, ux, cy, uy, t, tu, a, j)
+        except Exception as e:  # noqa: BLE001
+            fail("linearity/companions/zero-time", f"X=Inventory({cx!r},{ux!r}), Y=Inventory({cy!r},{uy!r}), t={t!r} {tu}",
+                 f"raised {type(e).__name__}: {e}")
 
     # ---------------- HP: splitting and linearity to double rounding
     import sympy
@@ -163,6 +135,42 @@ def correspondence(rep, ctx):
                 break
     rep.corr["input_distribution"].update(gen.dist)
     rep.notes["mismatches"] = bad
+
+
+def _c07_laws(rd, rep, gen, view, r, fail, cx, ux, cy, uy, t, tu, a, j):
+    X, Y = rd.Inventory(dict(cx), ux), rd.Inventory(dict(cy), uy)
+    lhs = (X * a + Y).decay(t, tu).numbers()
+    rhs = (X.decay(t, tu) * a + Y.decay(t, tu)).numbers()
+    tot = a_tot = F(a) * sum(abs(F(v)) for v in X.contents.values()) + sum(abs(F(v)) for v in Y.contents.values())
+    desc = f"a={a!r}, X=Inventory({cx!r},{ux!r}), Y=Inventory({cy!r},{uy!r}), t={t!r} {tu}"
+    rep.case(("linear", desc), sample={"law": "linearity", "a": a, "X": cx, "Y": cy, "t": t, "tu": tu} if j % 41 == 0 else None)
+    gen._count("linearity")
+    if list(lhs) != list(rhs):
+        fail("linearity", desc, "nuclide sets differ")
+    else:
+        for nm in lhs:
+            if abs(F(lhs[nm]) - F(rhs[nm])) > 4 * TOL * tot + abs(F(lhs[nm])) / 2**50:
+                fail("linearity", desc, f"{nm}: {lhs[nm]!r} vs {rhs[nm]!r}")
+                break
+    # companions: X's nuclides that Y cannot reach
+    xd = view.descendants([view.index[n] for n in X.contents])
+    yd = view.descendants([view.index[n] for n in Y.contents])
+    alone = X.decay(t, tu).numbers()
+    mixed = (X + Y).decay(t, tu).numbers()
+    xtot = sum(abs(F(v)) for v in X.contents.values())
+    for g in xd - yd:
+        nm = view.names[g]
+        if abs(F(alone[nm]) - F(mixed[nm])) > 2 * TOL * xtot:
+            fail("companions", desc, f"{nm}: alone {alone[nm]!r}, in mixture {mixed[nm]!r}")
+            break
+    gen._count("companions")
+    z = X.decay(0.0, tu).numbers()
+    for nm, v in X.contents.items():
+        if abs(F(z[nm]) - F(v)) > TOL * xtot:
+            fail("zero-time", desc, f"{nm}: {z[nm]!r} vs {v!r}")
+            break
+    if any(F(v) != 0 and abs(F(v)) > TOL * xtot for nm, v in z.items() if nm not in X.contents):
+        fail("zero-time", desc, "progeny appear at t = 0")
 
 
 def search(rep, ctx) -> bool:
